@@ -417,19 +417,25 @@ func templates(p *prefix, thorough bool) []*tmpl {
 			{name: "B3", parent: "B2", tag: 2},
 		}))
 	}
-	// T8: three branches at one fork point, the first arrived one invalid when connected, the other two of
-	// equal work: what the failed reorganisation falls back to
+	// T8: a fork point that is itself on a side branch gets three children; the first arrived one is invalid
+	// when connected, the other two tie. When an extension of the invalid child triggers a reorganisation
+	// that fails, what the node falls back to depends on the order of the remaining children.
 	{
 		x1 := sp(ops(op([32]byte{9, 9, 9}, 0)), outs(o1(1)))
-		ts = append(ts, p.mk("three-children-first-invalid-two-tied", []bspec{
-			{name: "X1", parent: "P", tag: 1, txs: []*reftx.Tx{x1}},
-			{name: "C1", parent: "P", tag: 2},
-			{name: "D1", parent: "P", tag: 3},
+		t := p.mk("three-children-first-invalid-two-tied", []bspec{
+			{name: "R1", parent: "P", tag: 4},
+			{name: "R2", parent: "R1", tag: 4},
+			{name: "Q1", parent: "P", tag: 5},
+			{name: "X1", parent: "Q1", tag: 1, txs: []*reftx.Tx{x1}},
+			{name: "C1", parent: "Q1", tag: 2},
+			{name: "D1", parent: "Q1", tag: 3},
 			{name: "C2", parent: "C1", tag: 2},
 			{name: "D2", parent: "D1", tag: 3},
 			{name: "X2", parent: "X1", tag: 1},
 			{name: "X3", parent: "X2", tag: 1},
-		}))
+		})
+		t.inSeq, t.always = 8, true // the first eight in this order (a scripted prelude), X2 / X3 anywhere
+		ts = append(ts, t)
 	}
 	// T4: equal-work ties at depth 2 and a late tie-breaker.
 	{
